@@ -50,8 +50,8 @@ def py_atoms(tier):
     for var, vals in (("python_version", pv), ("python_full_version", pfv)):
         for op in M.CMP_OPS + ["~="]:
             for v in vals:
-                if op == "~=" and ("." not in v or (var == "python_version" and not v.lstrip("v0!").replace(".", "").isdigit())):
-                    continue
+                if op == "~=" and ("." not in v or v == "3.post1"):
+                    continue  # ~= needs two release segments
                 out.append({"var": var, "op": op, "val": v, "rev": False, "style": 0})
                 if op != "~=" and v.replace(".", "").isdigit():
                     out.append({"var": var, "op": op, "val": v, "rev": True, "style": 0})
